@@ -83,6 +83,35 @@ def decompose(test, pol):
                 for v in e.values:
                     rec(v, False, False)
                 return
+        # bool(x) is x as far as truth goes
+        if isinstance(e, ast.Call) and isinstance(
+                e.func, ast.Name) and e.func.id == 'bool' and len(
+                    e.args) == 1 and not e.keywords:
+            rec(e.args[0], p, False)
+            return
+        # a conditional expression with a constant arm is a conjunction /
+        # disjunction: (False if C else V) == (not C and V), ...
+        if isinstance(e, ast.IfExp):
+            def cst(x):
+                return x.value if isinstance(x, ast.Constant) and isinstance(
+                    x.value, bool) else None
+            b, o = cst(e.body), cst(e.orelse)
+            eq = None
+            if b is False:
+                eq = ast.BoolOp(op=ast.And(), values=[
+                    ast.UnaryOp(op=ast.Not(), operand=e.test), e.orelse])
+            elif b is True:
+                eq = ast.BoolOp(op=ast.Or(), values=[e.test, e.orelse])
+            elif o is False:
+                eq = ast.BoolOp(op=ast.And(), values=[e.test, e.body])
+            elif o is True:
+                eq = ast.BoolOp(op=ast.Or(), values=[
+                    ast.UnaryOp(op=ast.Not(), operand=e.test), e.body])
+            if eq is not None:
+                ast.copy_location(eq, e)
+                ast.fix_missing_locations(eq)
+                rec(eq, p, False)
+                return
         if isinstance(e, ast.Compare) and len(e.ops) > 1 and p:
             # a < b < c  => each link holds
             left = e.left
